@@ -99,6 +99,11 @@ CLAIMED["C10"] = dict(
    note="Not decided: that each in-range operation returns exactly the addressed element for every index value, storage sharing of Slice3, automatic append (delegated to reflect). One dead sink (Set after Slice3, never settable) is a reasoned exception. Trusted: go/ssa, reflect's documented typing of MakeMap/MakeSlice/Zero/New/Convert/Index/Elem.",
    technique="symbolic type-term algebra over SSA values with reaching definitions for the interpreter's value cell, verified callee summaries, dominance-based guard facts (type and kind equalities); operand-provenance analysis (node operand -> reflect addressing call) with single-caller helper resolution; CFG reachability for failure-after-mutation",
    design="4 C10")
+CLAIMED["C11"] = dict(
+   text="Decided: that every crossing of the Go boundary goes through the conversion with the right target type and that nothing is dropped; not what reflect's conversion yields for which value. R1 in the argument builder every value appended for a Go function is result 0 of the error-checked conversion to In(rt, k), where k equals the position it lands at (the length of the argument list and the parameter index are proved to advance in lockstep by pairing the phis of the slice and of the index, induction over the loops), to Elem(In(rt, NumIn-1)) for variadic elements or the last parameter's type for a spread; VM functions get the double-boxed value. R2 every evaluated argument expression is appended before the next evaluation or a successful return; direct calls and wrapper literals pass arguments 0..n-1 in order; the spread list must match the remaining parameters exactly (today it does not: known finding, pinned by TestVariadicFunctions). R3 the result protocol: no result -> nil value, exactly one -> that very value, several -> a list built by a range with exactly one append on every path of the body; VM function: value unboxed from result 0 only after the error unboxed from result 1 tested nil. R4 package env stores the reflect.Value handed in (or table elements when copying a scope), lookups return the table element / external lookup result / parent's answer, Define and Set wrap with reflect.ValueOf and substitute a nil value only under value == nil. R5 the callback adapter boxes in[i] for every i < NumIn(), every return follows the nil-error edge of the result protocol whose error edge cannot reach a return (panics), results are converted to Out(rt, i) for the matching i with failure -> panic. R6 a call node built from another node copies every shared field its consumers read; member lookups use the node's Name and Value.MethodByName precedes the pointer indirection.",
+   note="Not decided: the conversion table for all (source kind, target kind) pairs, numeric truncation, that the total number of arguments equals the parameter count for every call shape (the count checks are numeric), identity of values through containers (C20 covers unwrapping). Trusted: go/ssa, reflect's typing of In/Out/Elem.",
+   technique="symbolic type terms and reaching definitions on SSA (as C10.R1), phi-pairing induction for slice length vs index, must-pass-through and divergence checks on the CFG, evaluation-event provenance, who-reads-which-field analysis for rebuilt nodes, SSA value identity in package env",
+   design="4 C11")
 NOT_YET = "checker for this property is not built yet in this revision (see DESIGN.md section 4 for the planned static rules)"
 ALL = ["C%02d" % i for i in range(1, 21)]
 
